@@ -81,8 +81,10 @@ def probe_array(n_modes=1):
     return np.stack(modes, 0)
 
 
-def make_dataset(seed, scan=(6, 6), step=2):
-    """-> preprocessed PtychographyDatasetRaster"""
+def make_dataset(seed, scan=(6, 6), step=2, bilinear=False, descan=(0.0, 0.0), com_fit="constant"):
+    """-> preprocessed PtychographyDatasetRaster.  descan: constant sub-pixel shift of every pattern on
+    the detector (then the fitted origin has a fractional part and the interpolation used to centre
+    the patterns - Fourier or bilinear - matters)"""
     m = setup()
     g = np.random.default_rng(seed)
     sx, sy = scan
@@ -102,28 +104,36 @@ def make_dataset(seed, scan=(6, 6), step=2):
     col = (y0[:, None, None] + xi[None, None, :]) % obj_n
     ew = obj[row, col] * probe
     inten = np.abs(np.fft.fft2(ew)) ** 2
+    if tuple(descan) != (0.0, 0.0):
+        from scipy.ndimage import shift as _shift
+
+        inten = np.stack([np.fft.ifftshift(_shift(np.fft.fftshift(p_), descan, order=1, mode="wrap"))
+                          for p_ in inten])
     rs = 2 * Q_MAX / N
     s = 1 / Q_MAX / 2
     d4 = m["Dataset4dstem"].from_array(
         array=np.fft.fftshift(inten * 100, axes=(-2, -1)).reshape((sx, sy, N, N)).astype(np.float32),
         sampling=(step * s, step * s, rs, rs), units=("A", "A", "A^-1", "A^-1"))
     pd = m["Raster"].from_dataset4dstem(d4, verbose=0)
-    pd.preprocess(com_fit_function="constant", plot_rotation=False, plot_com=False,
-                  probe_energy=ENERGY, force_com_rotation=0, force_com_transpose=False)
+    pd.preprocess(com_fit_function=com_fit, plot_rotation=False, plot_com=False,
+                  probe_energy=ENERGY, force_com_rotation=0, force_com_transpose=False,
+                  bilinear=bool(bilinear))
     return pd
 
 
-def make_ptycho(seed, obj_type="complex", num_slices=1, n_modes=1, rng=42, scan=(6, 6), cls=None):
+def make_ptycho(seed, obj_type="complex", num_slices=1, n_modes=1, rng=42, scan=(6, 6), cls=None,
+                probe_tilt=None, dset_opts=None):
     m = setup()
-    pd = make_dataset(seed, scan=scan)
+    pd = make_dataset(seed, scan=scan, **(dset_opts or {}))
     obj_model = m["Obj"].from_uniform(num_slices=num_slices, obj_type=obj_type,
                                       slice_thicknesses=1 if num_slices == 1 else 2.0,
                                       rng=int(rng) + 1 if isinstance(rng, int) else rng)
     params = {"energy": ENERGY, "C10": C10,
               "semiangle_cutoff": m["wavelength"](ENERGY) * 1e3 * Q_MAX / 2}
     pa = probe_array(n_modes)
+    tkw = {} if probe_tilt is None else {"probe_tilt": tuple(probe_tilt), "learn_probe_tilt": True}
     probe_model = m["Probe"].from_array(num_probes=n_modes, probe_params=params, probe_array=pa,
-                                        rng=int(rng) + 2 if isinstance(rng, int) else rng)
+                                        rng=int(rng) + 2 if isinstance(rng, int) else rng, **tkw)
     det = m["Detector"]()
     P = cls or m["Ptychography"]
     pt = P.from_models(dset=pd, obj_model=obj_model, probe_model=probe_model, detector_model=det,
